@@ -122,6 +122,18 @@ def run_case(cs):
     root = os.path.join(d, world.root_name(rng))
     world.write_tree(root, tree)
     os.makedirs(root, exist_ok=True)
+    file_links, link_targets = set(), set()
+    if rng.random() < 0.12:
+        # links to regular files: they are entries of their folder under their *own* name, with the target's content
+        fl = world.add_file_symlinks(rng, root, tree, rng.randint(1, 2))
+        if fl:
+            cs.count("trees_with_file_symlinks")
+            file_links = set(fl)
+            for lk in fl:
+                # what the link resolves to inside the tree (a change there is a change of the link's content as well)
+                rp = os.path.relpath(os.path.realpath(os.path.join(root, lk)), os.path.realpath(root))
+                if rp != ".." and not rp.startswith("../"):
+                    link_targets.add(rp)
     folder_links = False
     if rng.random() < 0.1:
         # links to folders (inside, outside, the parent): neither followed nor part of any directory hash
@@ -159,7 +171,7 @@ def run_case(cs):
     target = None
     if rel_kind == "rename":
         # (renaming a folder would leave a relative link to it dangling: with folder links present only files are renamed)
-        cand = [k for k in tree if ignoreref.match(allpat, k, tree[k] is None) is False and not (folder_links and tree[k] is None)]
+        cand = [k for k in tree if ignoreref.match(allpat, k, tree[k] is None) is False and not ((folder_links or file_links) and tree[k] is None) and k not in link_targets]
         if cand:
             target = rng.choice(cand)
             par = os.path.dirname(target)
@@ -175,7 +187,7 @@ def run_case(cs):
                 else:
                     t2[k] = v
     elif rel_kind == "edit":
-        cand = [k for k, v in tree.items() if v is not None and ignoreref.match(allpat, k) is False]
+        cand = [k for k, v in tree.items() if v is not None and ignoreref.match(allpat, k) is False and k not in link_targets and k not in file_links]
         if cand:
             target = rng.choice(cand)
             t2[target] = tree[target] + b"!"
@@ -260,7 +272,7 @@ def run_case(cs):
     if f0 in recorded and got and recorded[f0] and {k: v for k, v in recorded[f0].items() if k in got} != {k: v for k, v in got.items() if k in recorded[f0]}:
         cs.violation("recorded-differs-from-printed", {"kind": "recorded-vs-printed", "format": f0}, {})
     # ---------- a later generation after a content edit, in other formats: the recorded hashes still follow the definition
-    edit_files = sorted(k for k, v in tree.items() if v is not None and ignoreref.match(allpat, k) is False)
+    edit_files = sorted(k for k, v in tree.items() if v is not None and ignoreref.match(allpat, k) is False and k not in link_targets and k not in file_links)
     if edit_files and rng.random() < 0.4:
         victim = rng.choice(edit_files)
         tree[victim] = tree[victim] + b"#edited"
